@@ -248,6 +248,33 @@ def convBranch (m : Mem) (ctx : Ctx) (b : BlockOp) (w : Option Weights) (roundin
     b.ifm.zeroPoint b.ofm.zeroPoint rounding recs.toArray b.ofm.height b.ofm.width od
   vals.mapM fun v => applyActivation m ctx b (clamp v b.actMin b.actMax)
 
+/-- value of one pooling window before the activation clamp: MAX (`subOp = 0`) or AVERAGE over the valid elements `vals` -/
+def poolValue (b : BlockOp) (rounding : Rounding) (globalScale : Bool) (scale shift : Nat) (vals : List Int) : Except String Int :=
+  match vals with
+  | [] => throw "pooling window without a valid element"
+  | v0 :: rest =>
+    if b.subOp = 0 then pure (rest.foldl max v0 - b.ifm.zeroPoint + b.ofm.zeroPoint)
+    else
+      let s := vals.foldl (fun acc x => acc + (x - b.ifm.zeroPoint)) 0
+      if globalScale then pure (npuScale rounding s scale shift + b.ofm.zeroPoint)
+      else pure (divRoundAway s vals.length + b.ofm.zeroPoint)
+
+/-- the pooling branch of `execBlock`: the OFM values after the activation, in NHWC order -/
+def poolBranch (m : Mem) (ctx : Ctx) (b : BlockOp) (rounding : Rounding) (globalScale : Bool) (ifm : Array Int) (H W : Nat) :
+    Except String (List Int) := do
+  let C := b.ifm.depth
+  if b.subOp > 1 then throw "unsupported:reduce_sum"
+  if b.dilationX ≠ 1 ∨ b.dilationY ≠ 1 then throw "pooling with dilation"
+  let (scale, shift) ← if globalScale then
+      match b.ofmScale with
+      | some s => pure (lo32 s, hi6 s)
+      | none => throw "global scale selected but OFM_SCALE never written"
+    else pure (1, 0)
+  (coords3 b.ofm.height b.ofm.width b.ofm.depth).mapM fun (oy, ox, oc) => do
+    let vals := windowVals H W (fun y x => ifm.getD ((y * W + x) * C + oc) 0) b.kernelH b.kernelW b.strideY b.strideX b.padTop b.padLeft oy ox
+    let v ← poolValue b rounding globalScale scale shift vals
+    applyActivation m ctx b (clamp v b.actMin b.actMax)
+
 def execBlock (m : Mem) (ctx : Ctx) (b : BlockOp) (regs : RegFile) (w : Option Weights) : Except String Mem := do
   if b.upscale > 2 then throw "reserved upscale mode"
   if b.upscale ≠ 0 ∧ b.kind == .elementwise then throw "unsupported:upscale-elementwise"
@@ -287,26 +314,7 @@ def execBlock (m : Mem) (ctx : Ctx) (b : BlockOp) (regs : RegFile) (w : Option W
   | .conv | .depthwise =>
     out := (← convBranch m ctx b w rounding ifm H W).toArray
   | .pool =>
-    if b.subOp > 1 then throw "unsupported:reduce_sum"
-    if b.dilationX ≠ 1 ∨ b.dilationY ≠ 1 then throw "pooling with dilation"
-    let (scale, shift) ← if globalScale then
-        match b.ofmScale with
-        | some s => pure (lo32 s, hi6 s)
-        | none => throw "global scale selected but OFM_SCALE never written"
-      else pure (1, 0)
-    for oy in [0:oh] do
-      for ox in [0:ow] do
-        for oc in [0:od] do
-          let vals := windowVals H W (fun y x => ifmAt y x oc) b.kernelH b.kernelW b.strideY b.strideX b.padTop b.padLeft oy ox
-          let v ← match vals with
-            | [] => throw "pooling window without a valid element"
-            | v0 :: rest =>
-              if b.subOp = 0 then pure (rest.foldl max v0 - zp + ozp)
-              else
-                let s := vals.foldl (fun acc x => acc + (x - zp)) 0
-                if globalScale then pure (npuScale rounding s scale shift + ozp)
-                else pure (divRoundAway s vals.length + ozp)
-          out := out.push (← finish v)
+    out := (← poolBranch m ctx b rounding globalScale ifm H W).toArray
   | .elementwise =>
     let mode := b.subOp
     if mode > 6 ∨ mode = 7 then throw s!"unsupported:elementwise{mode}"
